@@ -3035,7 +3035,11 @@ const (
 
 // Format formats the node.
 func (node *BinaryExpr) Format(buf *TrackedBuffer) {
-	buf.Myprintf("%v %s %v", node.Left, node.Operator, node.Right)
+	if node.Operator == ArrayElement {
+		buf.Myprintf("%v[%v]", node.Left, node.Right)
+	} else {
+		buf.Myprintf("%v %s %v", node.Left, node.Operator, node.Right)
+	}
 }
 
 func (node *BinaryExpr) walkSubtree(visit Visit) error {
